@@ -61,6 +61,27 @@ theorem notify_order_minimal (n : Nat) (w : Nat → Waiter) (q : List Nat) (hq :
   · exact absurd hb hb'
   · exact (List.pairwise_append.mp hs).2.2 a ha b hb
 
+/-- `notify_order` applied to the transition system: in every reachable PriorityCondition state a
+`notify(n)` by the owner sets exactly the futures of the first `max n 1` not-yet-notified waiters in
+(priority at wait start, arrival) order — the waiter queue of a reachable state never contains a
+task twice (`qinv_reachable`). -/
+theorem notify_order_reachable {s s' : State} (h : Reachable .pc s) (j n : Nat)
+    (hs : step s (.notify j n) = some s') :
+    ∀ t, (s'.w t).fut =
+      if t ∈ (pendingOrdered .pc s.w s.queue).take (max n 1) then Fut.done else (s.w t).fut := by
+  have hk : s.kind = .pc := by
+    obtain ⟨es, hr⟩ := h
+    exact kind_run es _ _ hr
+  have hq := (qinv_reachable h).nodup
+  simp only [step] at hs
+  split at hs
+  · injection hs with hs; subst hs
+    intro t
+    have := notify_order n s.w s.queue hq
+    simp only [hk]
+    rw [this.2.1 t, this.1]
+  · cases hs
+
 /-- **No notification lost** (PriorityCondition).  Whenever a waiter leaves `wait()` with an
 exception, `_notify(1)` has been executed on the way out, and it set the future of the most
 urgent not-yet-notified waiter if there was one (`pendingBefore` lists them most urgent first,
